@@ -63,19 +63,20 @@ CHECK = {
         "matching max(..) entry of nb_advice_cols (both are the same generic functions of the circuits crate)",
         "consumers without an error type (MidnightCircuit::from_relation, min_k, cost_model, setup_vk unwrap the layout pass) are only "
         "required to succeed on programs the layout pass accepts: a deployer must run the total pass first",
-        "known findings (findings/C16.json, status known): IntoBytes(n) with n >= 2^32 (u32-truncated guard: panic) and huge n on a BigUint "
-        "(memory ~ n), Load(Bytes(n)) / Load(BigUint(b)) with sizes no circuit can hold (memory ~ n: abort / capacity overflow), "
-        "Automaton::deserialize pre-allocating from an unchecked length (hook-only reachability); the theorem "
-        "compile_never_panics_partial carries the corresponding hypothesis (immediates < 2^32)",
+        "known findings (findings/C16.json, status known; NOT repaired because the bound is a design decision): memory proportional to a size "
+        "the program itself declares - IntoBytes(n) with a huge n on a BigUint, Load(Bytes(n)) / Load(BigUint(b)) with sizes no circuit can "
+        "hold (allocation abort, capacity-overflow panic or timeout). Repaired and kept as regression cases: the u32-truncated guard of "
+        "IntoBytes(n) on a Native (af7577a; compile_never_panics is now unconditional, the old guard survives as "
+        "pinned_into_bytes_guard_truncated) and the unchecked pre-allocation of Automaton::deserialize (e0a0bca)",
     ],
     "level_text": "Kernel-checked Lean theorems about executable models of the byte decoders (canonical encodings only, valid "
                   "points only, commitment counts = constraint system, accepted k = extended domain exists for every degree, column "
                   "slices in range for every architecture, memory linear in input length) and of ZKIR compilation with unknown "
-                  "witnesses (total, compositional, never the panic outcome for 32-bit immediates, IntoBytes/FromBytes/Load limits "
+                  "witnesses (total, compositional, never the panic outcome for any immediate, IntoBytes/FromBytes/Load limits "
                   "equal to the off-circuit side, names bound once), with the models checked against the real decoders and the real "
                   "compile pass on a dense mutation / parameter sweep on every run",
     "level_note": "Totality of the Rust code itself is by correspondence (catch_unwind + counting allocator + child process with memory "
                   "cap and watchdog over the sweep); blst, bincode, serde_json and the ZKIR constant parser are modelled or exercised, "
-                  "not verified; five size-parameter defects of the pinned tree are reported as known findings",
+                  "not verified; three program-declared-size allocation defects remain known findings (two further defects found by this check were repaired: af7577a, e0a0bca)",
     "timeout": {"quick": 900, "thorough": 3000, "search": 600},
 }
